@@ -66,7 +66,9 @@ func (w *wconn) hit(kind string) bool {
 
 func (w *wconn) Prepare(q string) (driver.Stmt, error) { return w.c.Prepare(q) }
 func (w *wconn) Close() error                          { return w.c.Close() }
-func (w *wconn) Begin() (driver.Tx, error)             { return w.BeginTx(context.Background(), driver.TxOptions{}) }
+func (w *wconn) Begin() (driver.Tx, error) {
+	return w.BeginTx(context.Background(), driver.TxOptions{})
+}
 func (w *wconn) BeginTx(ctx context.Context, o driver.TxOptions) (driver.Tx, error) {
 	if w.hit("begin") {
 		return nil, errInjected
